@@ -377,6 +377,22 @@ theorem field_rejects_bad_text (field : String) (d : Dim) (sys : Sys) (v : Rat) 
   | error e => rfl
   | ok u => simp [h u hp, Res.isError]
 
+/-- text items of a list handed to `UnitArray.set_value` keep their type and are parsed as quantities
+(repository fix 8eb7708; before it `np.array(list)` turned them into `np.str_`, which the `type(..) == str` test missed) … -/
+theorem array_text_items_parsed : arrayTextItemsParsed = true := by decide +kernel
+
+/-- … hence a text item without units, of another dimension, or with an unreadable unit is refused wherever a
+quantity list is demanded (`t_sample`, `state`) -/
+theorem array_text_item_rejected (field : String) (d : Dim) (sys : Sys) (v : Rat) (us : String)
+    (hf : fieldDim field = some d) (h : ∀ u, parseUnits us = .ok u → u.dim ≠ d) :
+    (arrayTextElement field sys v us).isError = true := by
+  have := field_rejects_bad_text field d sys v us hf h
+  unfold arrayTextElement
+  rw [array_text_items_parsed]
+  cases hs : setField field sys (.text v us) with
+  | ok x => rw [hs] at this; simp [Res.isError] at this
+  | error e => rfl
+
 /-- rate constants: the demanded dimension is the order's (C19.k_dim); any other is refused -/
 theorem rate_constant_of_wrong_order_rejected (sys : Sys) (n : Int) (x : UVal) (h : x.u.dim ≠ kDim n) :
     processScalar sys (kDim n) (.uval x) = .error .dimMismatch := by
